@@ -1,6 +1,7 @@
 """C11 — default and transparent variants capture and forward their inner value verbatim."""
 from .common import *
 from .. import strgen
+from . import c18
 
 RULE = ("programs A (default): random EnumString+Display enums of C01's domain that contain a default variant in tuple or "
         "single-named-field form (inner String / Box<str> / a From<&str> newtype; with and without serialize aliases, never "
@@ -95,7 +96,7 @@ def glue_default(spec):
 
 
 def check(run):
-    deps, vmon = setup(run)
+    deps, vmon = setup(run, cfgs=("std", "phf"))
     thorough = run.tier == "thorough"
     r = gen.rng_for(run.seed, "c11")
     units = []
@@ -120,7 +121,24 @@ def check(run):
                 v.to_string = None
         if model.overlaps(s):
             continue
-        units.append(shards.Unit("u_" + s.name.lower(), glue_default(s), meta={"enum_src": s.render()}, sig="default," + s.signature(), head=strgen.CAPTURE_HEAD))
+        if r.random() < 0.15:
+            s.parse_err = ("MyErr", "my_err")     # custom error attributes must not stop the catch-all from capturing
+        units.append(shards.Unit("u_" + s.name.lower(), glue_default(s), meta={"enum_src": s.render()}, sig="default," + s.signature(), head=(strgen.CAPTURE_HEAD, c18.ERR_HEAD)))
+    # the same capture through the use_phf parser (field-less siblings, strum built with the phf feature)
+    punits = []
+    j = 0
+    while len(punits) < (300 if thorough else 60):
+        j += 1
+        s = strgen.build(r, "PD%d" % j, ["EnumString", "Display"], n=r.choice([1, 2, 3, 5]), fieldless=True, allow_prefix=True, capture_types=["String", "BoxStr"])
+        if not any(v.default and not v.disabled for v in s.variants):
+            continue
+        for v in s.variants:
+            if v.default:
+                v.to_string = None
+        s.use_phf = True
+        if model.overlaps(s):
+            continue
+        punits.append(shards.Unit("u_" + s.name.lower(), glue_default(s), meta={"enum_src": s.render()}, sig="default,phf," + s.signature(), head=(strgen.CAPTURE_HEAD, c18.ERR_HEAD)))
     tunits = []
     for j in range(2000 if thorough else 360):
         body, src = build_transparent(r, "T%d" % j, j % 3)
@@ -128,6 +146,8 @@ def check(run):
     run.rule = RULE
     allu = units + tunits
     samples = standard_flow(run, allu, deps["std"], vmon, profiles=("fast",), tag="c11")
+    samples.update(standard_flow(run, punits, deps["phf"], vmon, profiles=("fast",), tag="c11p"))
+    allu = allu + punits
     pick_samples(run, samples, {u.name: u for u in allu})
     run.extra["programs"] = len(allu)
     run.extra["default_enums"] = len(units)
